@@ -166,6 +166,81 @@ theorem planckSample_mem (x : ℝ) (cdf logcdf logfreq : ℕ → ℝ) (n : ℕ) 
   exact ⟨mul_le_mul_of_nonneg_right (Real.rpow_le_rpow_of_exponent_le (by norm_num) a) hc,
          mul_le_mul_of_nonneg_right (Real.rpow_le_rpow_of_exponent_le (by norm_num) b) hc⟩
 
+
+/-- the Planck sampler inverts the table's cumulative distribution **interpolated linearly in
+log–log** (the interpolation the table is meant for): `log₁₀ F(ν) = log₁₀ u` at the returned ν -/
+theorem planckLogFreq_inverts (x : ℝ) (cdf logcdf logfreq : ℕ → ℝ) (n : ℕ) (hn : 2 ≤ n)
+    (hpos : ∀ i, 1 ≤ i → i < n → 0 < cdf i)
+    (hlog : ∀ i, 1 ≤ i → i < n → logcdf i = Real.log (cdf i) / Real.log 10)
+    (hfirst : logcdf 0 < logcdf 1)
+    (hf : ∀ i, i + 1 < n → logfreq i < logfreq (i + 1))
+    (hx : 0 < x) (h0 : cdf 0 < x) (h1 : x ≤ cdf (n - 1)) :
+    let i := locate x cdf n
+    logcdf i + (planckLogFreq x cdf logcdf logfreq n - logfreq i) / (logfreq (i + 1) - logfreq i) *
+      (logcdf (i + 1) - logcdf i) = Real.log x / Real.log 10 := by
+  obtain ⟨ha, hb⟩ := locate_bracket x cdf n hn h0 h1
+  have hle := locate_add_two_le x cdf n hn
+  have hub : Real.log x / Real.log 10 ≤ logcdf (locate x cdf n + 1) := by
+    rw [hlog _ (by omega) (by omega)]; exact log10_le hx hb
+  have hlt : logcdf (locate x cdf n) < logcdf (locate x cdf n + 1) := by
+    by_cases hz : locate x cdf n = 0
+    · rw [hz]; exact hfirst
+    · have hl := hlog (locate x cdf n) (by omega) (by omega)
+      have := log10_lt (hpos (locate x cdf n) (by omega) (by omega)) ha
+      rw [← hl] at this
+      exact lt_of_lt_of_le this hub
+  have hfi := hf (locate x cdf n) (by omega)
+  intro i
+  show logcdf (locate x cdf n) + (planckLogFreq x cdf logcdf logfreq n - logfreq (locate x cdf n)) /
+    (logfreq (locate x cdf n + 1) - logfreq (locate x cdf n)) *
+      (logcdf (locate x cdf n + 1) - logcdf (locate x cdf n)) = Real.log x / Real.log 10
+  unfold planckLogFreq
+  simp only [log10_real]
+  have hc : logcdf (locate x cdf n + 1) - logcdf (locate x cdf n) ≠ 0 := (sub_pos.mpr hlt).ne'
+  have hfz : logfreq (locate x cdf n + 1) - logfreq (locate x cdf n) ≠ 0 := (sub_pos.mpr hfi).ne'
+  field_simp
+  ring
+
+/-- the returned Planck frequency is `10^(log frequency) · 13.6 eV/h` -/
+theorem planckSample_eq (x : ℝ) (cdf logcdf logfreq : ℕ → ℝ) (n : ℕ) :
+    planckSample x cdf logcdf logfreq n = (10 : ℝ) ^ planckLogFreq x cdf logcdf logfreq n * 3.288465385e15 := by
+  unfold planckSample
+  simp only [pow_real]
+  norm_num
+
+/-- what the Lyman continuum samplers return, exactly: the mix, with weight
+`t = (T_c - T_i)/(T_{i+1} - T_i) ∈ [0, 1]`, of the lower edges of the frequency bins that contain `u`
+in the cumulative tables of the two temperatures bracketing the clamped temperature -/
+theorem lymanSample_quantile_mix (x T : ℝ) (ttab : ℕ → ℝ) (nT : ℕ) (freq : ℕ → ℝ) (cdf : ℕ → ℕ → ℝ) (nF : ℕ)
+    (hnT : 2 ≤ nT) (ht : ∀ i, i + 1 < nT → ttab i < ttab (i + 1)) :
+    let Tc := clampT T ttab nT
+    let iT := locate Tc ttab nT
+    let t := (Tc - ttab iT) / (ttab (iT + 1) - ttab iT)
+    0 ≤ t ∧ t ≤ 1 ∧
+    lymanSample x T ttab nT freq cdf nF =
+      (1 - t) * freq (locate x (cdf iT) nF) + t * freq (locate x (cdf (iT + 1)) nF) := by
+  have hmono : ∀ k, k < nT → ttab 0 ≤ ttab k := by
+    intro k hk
+    induction k with
+    | zero => exact le_rfl
+    | succ k ih => exact le_trans (ih (by omega)) (ht k hk).le
+  obtain ⟨c0, c1⟩ := clampT_mem T ttab nT (hmono (nT - 1) (by omega))
+  obtain ⟨ba, bb⟩ := locate_bracket_le (clampT T ttab nT) ttab nT hnT c0 c1
+  have hle := locate_add_two_le (clampT T ttab nT) ttab nT hnT
+  have hstrict := ht (locate (clampT T ttab nT) ttab nT) (by omega)
+  have hd : 0 < ttab (locate (clampT T ttab nT) ttab nT + 1) - ttab (locate (clampT T ttab nT) ttab nT) := by linarith
+  intro Tc iT t
+  refine ⟨div_nonneg (by linarith) hd.le, by rw [div_le_one hd]; linarith, ?_⟩
+  show lymanSample x T ttab nT freq cdf nF = _
+  unfold lymanSample
+  simp only
+  show _ = (1 - (clampT T ttab nT - ttab (locate (clampT T ttab nT) ttab nT)) /
+      (ttab (locate (clampT T ttab nT) ttab nT + 1) - ttab (locate (clampT T ttab nT) ttab nT))) * _ +
+    (clampT T ttab nT - ttab (locate (clampT T ttab nT) ttab nT)) /
+      (ttab (locate (clampT T ttab nT) ttab nT + 1) - ttab (locate (clampT T ttab nT) ttab nT)) * _
+  field_simp
+  ring
+
 /-- uniform spectrum: `u ∈ [0, 1)` ↦ `[ν₀, 4 ν₀)` -/
 theorem uniformSample_mem (x : ℝ) (h0 : 0 ≤ x) (h1 : x < 1) :
     (3.289e15 : ℝ) ≤ uniformSample x ∧ uniformSample x < 4 * 3.289e15 := by
